@@ -39,6 +39,18 @@ def akeys {α : Type} (m : AL α) : List String := m.map Prod.fst
 def rangeWrite {α β : Type} (f : String → α → β) (m : AL α) : AL β :=
   m.foldl (fun acc kv => put kv.1 (f kv.1 kv.2) acc) []
 
+/-- `for k, v := range m { m[k] = f(k, v) }` — the map is updated in place while it is ranged (enforceUnicity,
+convertToStringKeysRecursive, normalisation loops, `services[name] = merged`) -/
+def rangeUpdate {α : Type} (f : String → α → α) (m : AL α) : AL α :=
+  m.foldl (fun acc kv => put kv.1 (f kv.1 kv.2) acc) m
+
+/-- `for k, v := range m { if err := f(k, v); err != nil { return err } }` — the first error in iteration order -/
+def rangeCheck {α ε : Type} (f : String → α → Option ε) : AL α → Option ε
+  | [] => none
+  | (k, v) :: r => match f k v with
+    | some e => some e
+    | none => rangeCheck f r
+
 /-! ## sorting (structural, so that `decide` can run it) -/
 
 def insertBy {α : Type} (le : α → α → Bool) (x : α) : List α → List α
